@@ -1244,6 +1244,13 @@ def loop_fragment_cases(rnd, n):
                         body.append("u3(%s, %s, %s) q[i];" % tuple(rnd.choice(PEXPR) for _ in range(3)))
                     else:
                         body.append("inv @ rx(%s) q[i];" % rnd.choice(PEXPR))
+                if defs and 0 <= lo <= hi < nq and rnd.random() < 0.4:
+                    # a call of a defined gate inside the loop body, its first operand indexed by the loop variable
+                    nm, npar, k = rnd.choice(defs)
+                    others = [z for z in range(nq) if not lo <= z <= hi]
+                    if len(others) >= k - 1:
+                        ops_ = ["q[i]"] + ["q[%d]" % z for z in rnd.sample(others, k - 1)]
+                        body.append("%s%s %s;" % (nm, "(%s)" % ", ".join(rnd.choice(PEXPR) for _ in range(npar)) if npar else "", ", ".join(ops_)))
                 if bad and rnd.random() < 0.5:
                     body.append("cx q[%d], q[i];" % rnd.randint(lo, max(lo, hi)))
                 L.append("for int i in [%d:%d] { %s }" % (lo, hi, " ".join(body)))
